@@ -258,6 +258,11 @@ class Sim:
         self.last_external = 0
         self.max_lag = 0
         self.pending_at_end = 0
+        self.retry_timers = []      # (run, engine node id, seconds) of every asyncio.sleep of the engine's retry loop
+
+    @staticmethod
+    def cur_run():
+        return CUR_RUN.get()
 
     # -- trace -------------------------------------------------------------------------------
     def log(self, kind, node=None, payload=None, run=None):
